@@ -10,15 +10,18 @@ import (
 	"crypto/sha256"
 	"crypto/x509"
 	"crypto/x509/pkix"
+	"encoding/asn1"
 	"encoding/hex"
 	"encoding/json"
 	"fmt"
 	"io"
+	"math/big"
 	"os"
 	"os/exec"
 	"path/filepath"
 	"strings"
 	"testing/iotest"
+	"time"
 
 	intoto "github.com/in-toto/in-toto-golang/in_toto"
 
@@ -365,7 +368,8 @@ func c19SignVerify(c *core.Ctx, id string, enc encoding, k intoto.Key, s crypto.
 
 func c19Explicit(c *core.Ctx, kind string, i int, kt string, encs []encoding, pubStr string) {
 	schemes := map[string][]string{"rsa": {"rsassa-pss-sha256"}, "ecdsa": {"ecdsa-sha2-nistp224", "ecdsa-sha2-nistp256", "ecdsa-sha2-nistp384", "ecdsa-sha2-nistp521"}, "ed25519": {"ed25519"}}
-	algLists := [][]string{{"sha256", "sha512"}, {"sha512", "sha256"}, {"sha256"}, {"sha512"}}
+	// an absent and an empty list are valid too; their descriptions read null and []
+	algLists := [][]string{{"sha256", "sha512"}, nil, {}, {"sha512", "sha256"}, {"sha256"}, {"sha512"}}
 	for ei, enc := range encs {
 		for _, ty := range []string{"rsa", "ecdsa", "ed25519"} {
 			for si, sch := range schemes[ty] {
@@ -487,6 +491,38 @@ func c19Spiffe(c *core.Ctx, in any, want []string) {
 	c.Obs("spiffe_conversions_ok", ok)
 }
 
+// derInts is the DER encoding of SEQUENCE { INTEGER ... }.
+func derInts(v ...*big.Int) []byte {
+	b, err := asn1.Marshal(v)
+	if err != nil {
+		panic(err)
+	}
+	return b
+}
+
+func oddBig(b []byte) *big.Int {
+	b[0] |= 0x40
+	b[0] &= 0x7f
+	b[len(b)-1] |= 1
+	return new(big.Int).SetBytes(b)
+}
+
+// c19CRL is a genuine, signed certificate revocation list.
+func c19CRL() []byte {
+	s, _ := gen.NewSigner("ecdsa-p256")
+	tmpl := &x509.Certificate{SerialNumber: big.NewInt(1), Subject: pkix.Name{CommonName: "crl issuer"}, NotBefore: time.Unix(1700000000, 0), NotAfter: time.Unix(4000000000, 0), KeyUsage: x509.KeyUsageCRLSign | x509.KeyUsageCertSign, IsCA: true, BasicConstraintsValid: true, SubjectKeyId: []byte{1, 2, 3}}
+	der, err := x509.CreateCertificate(rand.Reader, tmpl, tmpl, s.Public(), s)
+	if err != nil {
+		panic(err)
+	}
+	ca, _ := x509.ParseCertificate(der)
+	crl, err := x509.CreateRevocationList(rand.Reader, &x509.RevocationList{Number: big.NewInt(7), ThisUpdate: time.Unix(1700000000, 0), NextUpdate: time.Unix(4000000000, 0)}, ca, s)
+	if err != nil {
+		panic(err)
+	}
+	return crl
+}
+
 func c19Negatives(c *core.Ctx) {
 	r := c.Rand("c19neg")
 	randBytes := func(n int) []byte {
@@ -520,6 +556,15 @@ func c19Negatives(c *core.Ctx) {
 		{"EC PARAMETERS block followed by text", gen.PEMOf("EC PARAMETERS", []byte{0x06, 0x08, 0x2a, 0x86, 0x48, 0xce, 0x3d, 0x03, 0x01, 0x07}) + "no key follows\n"},
 		{"two non-key blocks", gen.PEMOf("EC PARAMETERS", []byte{0x06, 0x05, 0x2b, 0x81, 0x04, 0x00, 0x22}) + gen.PEMOf("X509 CRL", randBytes(40))},
 		{"JSON key object", `{"keytype":"ed25519","keyval":{"public":"00"}}`},
+		// well-formed ASN.1 structures of other kinds, as other tools write them into .pem files
+		{"DH PARAMETERS block (generator 2)", gen.PEMOf("DH PARAMETERS", derInts(oddBig(randBytes(256)), big.NewInt(2)))},
+		{"DH PARAMETERS block (generator 5)", gen.PEMOf("DH PARAMETERS", derInts(oddBig(randBytes(128)), big.NewInt(5)))},
+		{"DH PARAMETERS under a key label", gen.PEMOf("PUBLIC KEY", derInts(oddBig(randBytes(256)), big.NewInt(2)))},
+		{"DSA PARAMETERS block", gen.PEMOf("DSA PARAMETERS", derInts(oddBig(randBytes(256)), oddBig(randBytes(32)), oddBig(randBytes(256))))},
+		{"signature value block", gen.PEMOf("ECDSA SIGNATURE", derInts(oddBig(randBytes(32)), oddBig(randBytes(32))))},
+		{"pair of small integers", gen.PEMOf("PARAMETERS", derInts(big.NewInt(65537), big.NewInt(3)))},
+		{"single integer", gen.PEMOf("PUBLIC KEY", derInts(oddBig(randBytes(256))))},
+		{"revocation list", gen.PEMOf("X509 CRL", c19CRL())},
 		{"binary garbage", string(randBytes(200))},
 	}
 	for k := 0; k < c.Pick(20, 300); k++ {
@@ -566,7 +611,7 @@ func init() {
 	core.Register(&core.Property{
 		ID:    "C19",
 		Level: "exploration",
-		Rule: "freshly generated keys per run (quick: 2 RSA-2048, ECDSA P-224/256x2/384/521, 3 Ed25519; thorough: more, plus RSA-3072) x every PEM encoding each supports (PKCS#8, PKCS#1, SEC1, PKIX, self-signed and CA-issued certificate) x 4 loaders (the reader-based ones fed whole, byte by byte, in halves and in 100-byte pieces) x 7 decorations (plain, surrounding whitespace, CRLF, trailing garbage PEM block, trailing text, trailing PEM block with another valid public key / another key's certificate: the first block is the key): type, default scheme, public-half string, key id (recomputed independently as SHA-256 of the reference canonical description), presence of private half / certificate, equal ids across the forms of one pair and different ids for different keys; sign with the private-loaded key, verify with public/certificate-loaded keys and with crypto/*; public-only keys must not sign; explicit scheme and hash lists (matching => reflected in id; scheme of another key type => error); re-use of one Key object for two loads must equal a fresh load; before every load an earlier default-loaded key object is modified in place by its owner (later loads must not notice); SVIDDetails.InTotoKey on generated SVID-like pairs (helper built inside the repository module through a build overlay); negatives (empty, text, truncated DER/base64, random DER under 5 labels, encrypted PKCS#8 label, CSR, DSA-like, EC PARAMETERS block without a key, binary) through all loaders. " +
+		Rule: "freshly generated keys per run (quick: 2 RSA-2048, ECDSA P-224/256x2/384/521, 3 Ed25519; thorough: more, plus RSA-3072) x every PEM encoding each supports (PKCS#8, PKCS#1, SEC1, PKIX, self-signed and CA-issued certificate) x 4 loaders (the reader-based ones fed whole, byte by byte, in halves and in 100-byte pieces) x 7 decorations (plain, surrounding whitespace, CRLF, trailing garbage PEM block, trailing text, trailing PEM block with another valid public key / another key's certificate: the first block is the key): type, default scheme, public-half string, key id (recomputed independently as SHA-256 of the reference canonical description), presence of private half / certificate, equal ids across the forms of one pair and different ids for different keys; sign with the private-loaded key, verify with public/certificate-loaded keys and with crypto/*; public-only keys must not sign; explicit scheme and hash lists, including the absent and the empty list (matching => reflected in id; scheme of another key type => error); re-use of one Key object for two loads must equal a fresh load; before every load an earlier default-loaded key object is modified in place by its owner (later loads must not notice); SVIDDetails.InTotoKey on generated SVID-like pairs (helper built inside the repository module through a build overlay); negatives (empty, text, truncated DER/base64, random DER under 5 labels, encrypted PKCS#8 label, CSR, DSA-like, EC PARAMETERS block without a key, DH/DSA PARAMETERS blocks, integer sequences, a signed revocation list, binary) through all loaders. " +
 			"non-trivial = a supported encoding parsed or a distinct negative class; distinct = (key kind, encoding, loader, decoration) etc.",
 		Assumptions: []string{"keys come from crypto/rand, so they differ per run; every input of a violation is saved in the replay file", "PEM input with trailing data after the first block may be accepted or refused (not judged), but never yields a wrong key", "PEM labels that contradict the DER content are not judged"},
 		Workers:     func(string) int { return 16 },
